@@ -151,3 +151,33 @@ contract(OSM_INIT, props=['C19'], params={'config': 'cfg', 'operand_set_collecti
                                'forall(lambda j: implies(0 <= j and j < i, cfg_str(cfg_item(config["list"], j)) in'
                                ' operand_set_collection.__dict and elems(self._operand_sets)[j] is'
                                ' mapping(operand_set_collection.__dict)[cfg_str(cfg_item(config["list"], j))]))'])})
+
+
+# ---- every variant's operand configuration is validated when the ISA definition is loaded (not when it is first used) ----
+@spec
+def parser_counts_ok(p):
+    """what OperandParser.validate establishes: operand counts match the operand-set list and every listed combination"""
+    return (implies(p._operand_sets_model is not None,
+                    cfg_int(p._config['count']) == len(p._operand_sets_model._operand_sets))
+            and implies(p._specific_operands_model is not None,
+                        forall(lambda j: implies(0 <= j and j < len(p._specific_operands_model._specific_operands),
+                                                 len(elems(p._specific_operands_model._specific_operands)[j]._operands)
+                                                 == cfg_int(p._config['count'])))))
+
+
+contract(OP + '.__init__', name='abs:OperandParser.__init__', props=['C19'], assumed=True,
+         reason='construction of the operand models of one variant (OperandSetsModel.__init__ / SpecificOperandsModel are kernels of '
+                'their own); allocates only',
+         params={'instruction_operands_config': 'cfg?', 'operand_set_collection': 'OperandSetCollection'},
+         may_raise={'SystemExit': 'True', 'TypeError': 'True', 'KeyError': 'True'}, ensures=[], modifies=[], allocates=True,
+         no_frame_check=True)
+contract('bespokeasm.assembler.model.instruction:InstructionVariant.__init__', name='variant-is-validated', props=['C19'],
+         params={'instruction_variant_config': 'cfg', 'operand_set_collection': 'OperandSetCollection'},
+         may_raise={'SystemExit': 'True', 'KeyError': 'True'},
+         ensures=['"bytecode" in instruction_variant_config',
+                  # a variant with operands leaves the constructor with its operand parser built AND validated
+                  'implies("operands" in instruction_variant_config, self._operand_parser is not None'
+                  ' and parser_counts_ok(value_of(self._operand_parser)))',
+                  'implies(not ("operands" in instruction_variant_config), self._operand_parser is None)'],
+         modifies=['self._mnemonic', 'self._default_endian', 'self._registers', 'self._variant_config', 'self._operand_parser'],
+         allocates=True, no_frame_check=True)
